@@ -58,6 +58,10 @@ func (f *Ash) Call(s *slip.Scope, args slip.List, depth int) (result slip.Object
 			if ti != 0 {
 				slip.ArithmeticPanic(s, depth, f, args, "the result of shifting %s left by %d bits is too large to represent", ti, sh)
 			}
+		case slip.Octet:
+			if ti != 0 {
+				slip.ArithmeticPanic(s, depth, f, args, "the result of shifting %s left by %d bits is too large to represent", ti, sh)
+			}
 		case *slip.Bignum:
 			slip.ArithmeticPanic(s, depth, f, args, "the result of shifting %s left by %d bits is too large to represent", ti, sh)
 		}
